@@ -482,6 +482,28 @@ fn op_insert_overcap<S: HK>(cfg: &Cfg, cls: u8, grow: u32) {
     std::mem::forget(st);
 }
 
+/// insert of a NEW key into a FULL weighted cache whose popularity sketch has NOT been enabled yet (the
+/// residents were inserted while the cache was under half full and then grown by in-place updates, which
+/// never enable the sketch): every estimate reads 0, "strictly more popular" is false, so the newcomer
+/// must be rejected and no resident touched (C13: scan resistance does not depend on the sketch being on).
+fn op_insert_sketch_off<S: HK>(cfg: &Cfg, cls: u8) {
+    let mut st = build::<S>(cfg);
+    let n = cfg.n;
+    st.c.frequency_sketch = Default::default();
+    st.c.frequency_sketch_enabled = false;
+    let ws0 = st.c.weighted_size;
+    let nv = Val { cls, data: kani::any() };
+    let wc = st.g.weigh(n, nv);
+    chk!(ws0 + wc as u64 > st.g.cap.unwrap() && wc as u64 <= st.g.cap.unwrap() && (wc as u64) <= ws0, "VERIF-BOUND: shape must send the newcomer through admission with a covering prefix");
+    st.c.insert(n as u8, nv);
+    chk!(st.c.cache.get(&(n as u8)).is_none(), "C13: a newcomer nobody ever looked up displaced residents (popularity 0 is not strictly greater than the victims' 0) while the sketch was still disabled");
+    let mut i = 0;
+    while i < MAXN { if i < n { chk!(st.c.cache.get(&(i as u8)).is_some(), "C13,C03,C12: a rejected newcomer must not touch any resident"); } i += 1; }
+    chk!(st.c.entry_count == n as u64 && st.c.weighted_size == ws0, "C10,C13: rejection changes no counter");
+    kani::cover!(true, "end of comparison reached");
+    std::mem::forget(st);
+}
+
 fn op_contains<S: HK>(cfg: &Cfg, j: usize, real_purge: bool) {
     let mut st = build::<S>(cfg);
     let mut e = st.g;
@@ -777,6 +799,7 @@ uh!(insert_new_n2_full_collide, 6, op_insert::<ConstH>(&cfg(2, Some(2), false, W
 // ---- weigher with distinct weights ----
 // residents 3+5 (+2), capacity 10: newcomer key n weighs 4 (cls 0) / 9 (cls 1)
 uh!(insert_new_n2_w_fits, 6, op_insert::<IdH>(&cfg(2, Some(10), true, WT_A, false, false, WO_ID, false), 2, 0));       // 8+2 fits
+uh!(insert_new_n2_w_sketch_off, 8, op_insert_sketch_off::<IdH>(&cfgt(2, Some(8), true, WT_A, false, false, WO_ID, false, 0), 0));
 uh!(insert_new_n2_w_admit, 6, op_insert::<IdH>(&cfg(2, Some(9), true, WT_A, false, false, WO_ID, false), 2, 1));       // 8+6: victims {0,1}
 uh!(insert_new_n2_w_toobig, 6, op_insert::<IdH>(&cfg(2, Some(8), true, WT_B, false, false, WO_ID, false), 2, 1));      // 6 > 5... fits? no: too big
 uh!(insert_new_n3_w_admit1, 7, op_insert::<IdH>(&cfg(3, Some(10), true, WT_A, false, false, WO_ID, false), 3, 0));     // 10+4: victim {0,1}? 3<4 -> {0,1}
